@@ -6,7 +6,8 @@ verus! {
 
 global size_of usize == 8;
 
-//@include inc/pad_spec.rs
+//@include inc/pad_defs.rs
+//@include inc/pad_lemmas.rs
 
 // ---- the real function -----------------------------------------------------
 
